@@ -70,6 +70,21 @@ def make_case(rng, i, tier):
     if not irregular:
         for _ in range(4):
             pieces.append(tc.valid_piece(rng, cfg, stratum="A" if _ < 3 else "B", nseg=(1, 2), nbars=(1, 2), max_notes=5))
+    if not irregular and i % 5 == 2:
+        # whole-bar rest tokens: a step size as long as a bar (among them the longest bar the signature range admits), pieces in
+        # exactly those signatures with few notes, so that bars are silent from the bar line on (own random stream)
+        import random
+        r6 = random.Random(f"c02-bar-steps:{i}")
+        hi_ts = cfg["tsr"][1]
+        longest = [sg for sg in tc.SIGS_OK if 8 * sg[0] // sg[1] == hi_ts and 8 * sg[0] % sg[1] == 0]
+        pick = (longest + [(4, 4), (3, 4), (6, 8)])[: 1 + (i // 5) % 3] if longest else [(4, 4), (3, 4)][: 1 + (i // 5) % 2]
+        pick = [sg for sg in pick if cfg["tsr"][0] <= 8 * sg[0] // sg[1] <= hi_ts] or [(4, 4)]
+        cfg["steps"] = sorted(set(tc.steps_of(cfg) + [96 * sg[0] // sg[1] for sg in pick]))
+        if sib.get("steps") == cfg["steps"]:
+            sib["steps"] = None
+        elif which != "steps":
+            sib["steps"] = list(cfg["steps"])
+        pieces = [tc.valid_piece(r6, cfg, stratum="A" if k < 3 else "B", nseg=(1, 2), nbars=(1, 3), max_notes=2, only_sigs=pick) for k in range(4)]
     return {"cfg": cfg, "pieces": pieces, "stratum": "V" if irregular else "R", "sibling": None if irregular else sib, "sibling_differs_in": which,
             "rejected_first": tc.REJECTED_CONSTRUCTORS[(i // 3) % len(tc.REJECTED_CONSTRUCTORS)] if (i % 3 == 1 and not irregular) else None}
 
@@ -148,6 +163,8 @@ def run(case, ctx):
         try:
             toks = tok.tokenise(seqs)
             ntok += len(toks)
+            if any(t.startswith("rst_") and t[4:].isdigit() and int(t[4:]) >= 48 and int(t[4:]) in {b[1] for b in pc.get("bars", [])} for t in toks):
+                LOG.n("c02.whole_bar_rest_token_emitted")
             tok.encode(toks)
         except KeyError as e:
             fails.append(fail("encode_fails_on_tokenise_output", str(e)))
